@@ -1,5 +1,6 @@
 import Nv.Props.C14
 import Nv.Gen.C14
+set_option linter.unusedSimpArgs false
 /-! C14 — obligations on the definitions regenerated from /repo's current source. -/
 namespace Nv.C14
 
@@ -13,15 +14,19 @@ theorem tie_slot_in_range : SlotOk Nv.Gen.C14.normalizeSlotIndex := by
   intro i s hs
   have hb := srem_bounds i s hs
   have hn := neg_toInt_of_srem_neg i s hs
-  have hb' := srem_bounds (-i) s hs
+  have hr := BitVec.toInt_srem i s
+  -- the remainder has the sign of the dividend
+  have hsn : i.toInt < 0 → (i.srem s).toInt ≤ 0 := by
+    intro h; rw [hr]
+    have := Int.tmod_nonneg (a := -i.toInt) s.toInt (by omega)
+    rw [Int.neg_tmod] at this; omega
+  have hsp : 0 ≤ i.toInt → 0 ≤ (i.srem s).toInt := by
+    intro h; rw [hr]; exact Int.tmod_nonneg _ h
   unfold Nv.Gen.C14.normalizeSlotIndex
-  simp only []
-  split <;> rename_i h <;>
-    first
-    | (have hlt : (i.srem s).toInt < 0 := by simpa [BitVec.slt_iff_toInt_lt] using h
-       omega)
-    | (have hge : 0 ≤ (i.srem s).toInt := by simpa [BitVec.slt_iff_toInt_lt] using h
-       omega)
+  try simp only []
+  repeat' split
+  all_goals (rename_i hc; simp only [BitVec.slt_iff_toInt_lt, BitVec.toInt_zero, Bool.not_eq_true, decide_eq_true_eq,
+    decide_eq_false_iff_not, Int.not_lt] at hc; omega)
 
 /-- equal hashes give equal lanes: the lane index is a function of (hash, lanes) only — by definition of
 the regenerated kernel (no other input) -/
